@@ -159,7 +159,8 @@ def run_for(ctx, pid):
         rr = r['res']
         ntrees += 1
         nnodes += rr['nnodes']
-        if rr['nodes'] and sum(n['blen'] for n in rr['nodes'] if n['root']) <= 4096:
+        # TLC integers are 32 bit: a tree with a position beyond 2^30 (a seek to an offset read from the input) is judged by harness/ref only
+        if rr['nodes'] and sum(n['blen'] for n in rr['nodes'] if n['root']) <= 4096 and all(abs(n['start']) < (1 << 30) and abs(n['len']) < (1 << 30) for n in rr['nodes']):
             small_events.append(dict(len=0, force=False, prog=[], hasprog=False, nodes=rr['nodes'], bufs=rr['bufs'] or {}, panic='', nil=False))
             small_idx.append(k)
     # TLC judges every small tree; ref judges all; they must agree where both speak (G4)
